@@ -75,6 +75,8 @@ CANARIES = [
     ('cursor-underflow-empty-node', 'C08', 'src/cursor.rs', 'if elem.index + 1 >= page_node.len() {', 'if elem.index >= (page_node.len() - 1) {'),
     ('cursor-current-on-branch', 'C08', 'src/cursor.rs', '                if !n.leaf() {\n                    return None;\n                }\n', ''),
     ('cursor-pop-root', 'C08', 'src/cursor.rs', '                    if self.stack.len() == 1 {\n                        return false;\n                    }\n', ''),
+    ('cursor-next-repeats-entry', 'C08', 'src/cursor.rs', '        } else if self.next_called && !self.advance() {', '        } else if false && !self.advance() {'),
+    ('cursor-search-wrong-child', 'C08', 'src/cursor.rs', '        let next_page_id = page_node.index_page(index);', '        let next_page_id = page_node.index_page(0);'),
     ('cursor-stops-at-emptied-leaf', 'C07', 'src/cursor.rs', '        while self.on_emptied_leaf() {', '        while false {'),
     ('cursor-skips-one-entry-leaf', 'C07', 'src/cursor.rs', '                n.leaf() && e.index >= n.len()', '                n.leaf() && e.index + 1 >= n.len()'),
     ('cursor-advance-reports-end-early', 'C08', 'src/cursor.rs', '            self.seek_first();\n            return true;', '            self.seek_first();\n            return false;'),
